@@ -486,8 +486,13 @@ func finish(agg *Agg, stdout *os.File, t0 time.Time) int {
 	os.MkdirAll(rdir, 0o755)
 	for i, fa := range viol {
 		path := filepath.Join(rdir, fmt.Sprintf("%s-%s.json", p.ID, sigFile(fa.Sig)))
-		c := p.Gen(CaseRNG(agg.Seed, fa.Idx), agg.Tier, fa.Idx)
-		raw, _ := json.Marshal(c)
+		var raw json.RawMessage
+		if fa.Idx >= 0 {
+			c := p.Gen(CaseRNG(agg.Seed, fa.Idx), agg.Tier, fa.Idx)
+			raw, _ = json.Marshal(c)
+		} else {
+			raw = json.RawMessage("null") // not attributable to one case (race reports)
+		}
 		r := Replay{Prop: p.ID, Tier: agg.Tier, Seed: agg.Seed, Idx: fa.Idx, Sig: fa.Sig, Detail: fa.Detail, Case: raw,
 			Cmd: fmt.Sprintf("./check %s replay %s", p.ID, path)}
 		b, _ := json.MarshalIndent(r, "", " ")
